@@ -4,7 +4,9 @@ From OdakV Require Import C08.Model C08.Lemmas.
 Import ListNotations.
 Open Scope Z_scope.
 
-(* crop(pad(x)) = x bit for bit, default doubling, every h, w >= 1 (even, odd, non-square) *)
+(* crop(pad(x)) = x bit for bit, default doubling, every h, w >= 1 (even, odd, non-square): the index arithmetic on the two spatial
+   axes, shared by both APIs (the NumPy functions accept every h, w >= 1; the PyTorch functions read a last side below 5 as a channel
+   axis, which is the rank / layout dispatch modelled by spatial_axes and stated separately below) *)
 Theorem C08_crop_pad_default : forall (V : Type) (zero : V) h w (x : Z -> Z -> V),
   1 <= h -> 1 <= w ->
   let '(Sz, f) := zero_pad_torch zero h w None x in
@@ -53,6 +55,7 @@ Theorem C08_layout_3d : forall k h w, 5 <= w -> padded_shape [k; h; w] None = So
 Proof. exact layout_3d. Qed.
 Theorem C08_layout_crop_inverts_pad : forall shape, Forall (fun s => 1 <= s) shape ->
   (forall n, nth_error shape 2 = Some n -> length shape = 3%nat -> 5 <= n) ->
+  (forall n, nth_error shape 1 = Some n -> length shape = 2%nat -> 5 <= n) ->
   match padded_shape shape None with
   | Some p => (length shape = 4%nat -> 5 <= nth 3 shape 0 -> 5 <= nth 3 p 0) -> cropped_shape p None = Some shape
   | None => True
